@@ -9,13 +9,17 @@ from .report import walk_no_nested
 
 LEVEL = "other"
 LEVEL_TEXT = (
-    "The guarantees of C13 are statements over time and histories; static analysis decides only the local decision "
-    "structure, each clause a necessary condition of one of the bounds: the per-server gate of both runner twins as a "
+    "The guarantees of C13 are statements over time and histories. R1-R6 decide the local decision structure, each "
+    "clause a necessary condition of one of the bounds: the per-server gate of both runner twins as a "
     "decision table over (failing?, attempts vs retry_attempts, elapsed vs retry_timeout, outcome of the call, ignore_exc), "
     "the retry budget derived symbolically from the counter protocol (initial value, increment, gate threshold), the "
     "failure-accounting table, the coupled eviction/revival updates, and that only the caught error is re-raised. "
-    "Contact counts per sliding window, rerouting, recovery time and absence of bookkeeping exceptions over all histories "
-    "are not decided."
+    "Histories are R7: HashClient interpreted with exact collections on a concrete two-server cluster (three in the "
+    "thorough tier), scripted clock and server health, under every sequence of operations, clock steps (below "
+    "retry_timeout, between, above dead_timeout) and failures / recoveries up to depth 7 with state de-duplication "
+    "(times relative to now): contact counts per sliding window, no eviction by one failure, rerouting, no bypass of "
+    "healthy servers, only the server's own error escapes, placement restored after recovery. Bounded in depth, servers "
+    "and keys; the hasher is summarised as the set-like rotation C11.R4 shows it to be."
 )
 TRUSTED = ["CPython ast", "pmcsa/paths.py", "linear normal forms and table evaluation in pmcsa/rules_C13.py"]
 
